@@ -91,6 +91,7 @@ def run_shard(desc, seed, tier, col):
         case = {'T': T, 'v': v}
         col.case(case, nontrivial(T, v), features(T, v),
                  sample={'type': ir.show_type(T), 'value': absval.short(v, 200)})
+        col.begin(case)
         for f in run_case(case):
             col.fail(f['sub'], f['kind'], f['msg'], case, sig=f['sig'], obs=f.get('obs'))
 
